@@ -28,6 +28,7 @@ func init() {
 		// cleanup after the connection has ended
 		goTableRule(c, "C11/GO-TABLE")
 		onErrorCancelRule(c, "C11/ONERROR-CANCEL")
+		lockOrderRule(c, "C11/LOCK-ORDER", 3)
 		noPanicFor(c, "C11")
 	}
 }
